@@ -168,7 +168,9 @@ def signature_of(tr, idx):
     calls = []
     for e in tr[:idx + 1]:
         if e.get("ev") == "Call":
-            calls.append("%s(%s)" % (e["op"], ",".join(x for x in (e.get("k"), e.get("p"), e.get("tgt")) if x)))
+            calls.append("%s%s(%s)" % ((e["who"] + ".") if e.get("who") else "", e["op"], ",".join(x for x in (e.get("k"), e.get("p"), e.get("tgt")) if x)))
+        elif e.get("ev") == "Blocked":
+            calls.append(e.get("who", "") + ".blocked")
         elif e.get("ev") in ("Crash", "Restart", "Started", "StartFailed"):
             calls.append(e["ev"] + ("+bs" if e.get("bs") else "") + ("+ai" if e.get("ai") else "") + ("+nr" if e.get("nr") else ""))
     e = tr[idx]
@@ -183,9 +185,14 @@ def validate(run, pid, job, formulas):
     if not events:
         return 0
     traces = split_traces(events)
-    ov = {"Async": "TRUE" if job["async"] else "FALSE", "Keys": '{"k1", "k2", "k3"}', "CNames": '{"c1", "c2", "c3"}'}
-    res = run.tlc_trace("SnapshotterTrace", "SnapshotterTrace.cfg", path, ov, timeout=2400)
-    viol, mr = run.tlc_monitor("SnapshotterMonitor", "SnapshotterMonitor.cfg", path, ov, timeout=2400)
+    if job.get("two"):
+        ov = None
+        res = run.tlc_trace("Snapshotter2Trace", "Snapshotter2Trace.cfg", path, ov, timeout=1200)
+        viol, mr = run.tlc_monitor("Snapshotter2Trace", "Snapshotter2Monitor.cfg", path, ov, timeout=1200)
+    else:
+        ov = {"Async": "TRUE" if job["async"] else "FALSE", "Keys": '{"k1", "k2", "k3"}', "CNames": '{"c1", "c2", "c3"}'}
+        res = run.tlc_trace("SnapshotterTrace", "SnapshotterTrace.cfg", path, ov, timeout=2400)
+        viol, mr = run.tlc_monitor("SnapshotterMonitor", "SnapshotterMonitor.cfg", path, ov, timeout=2400)
     if viol:
         raise Inconclusive("monitor stopped: %s" % viol)
     with VLOCK:
@@ -233,6 +240,74 @@ def _judge(run, pid, job, formulas, events, traces, res, mr):
     return len(traces)
 
 
+# ---------------------------------------------------------------------------------------------- two callers (C08)
+TWO_FORMULAS = ["MetaHasDirs", "PrepareTargetOutcome", "ValidCreateSucceeds", "AfterCleanupDirsAreLive",
+                "UnmountOnlyAfterRemovedOrClosing", "ScanExcludesCreate"]
+
+
+def two_thunks(run):
+    """design level of Snapshotter2.tla: exhaustive (every interleaving at gate granularity) + the negative control:
+    with the scan under a read transaction each of the three formulas must fail"""
+    th = [lambda: run.tlc_mc("Snapshotter2", "Snapshotter2_mc.cfg", None, workers=2, timeout=600, name="Snapshotter2_mc.cfg two callers")]
+    for f in ("MetaHasDirs", "PrepareTargetOutcome", "AfterCleanupDirsAreLive"):
+        th.append(lambda f=f: run.tlc_negctl("Snapshotter2", "Snapshotter2_neg_%s.cfg" % f, {"CleanupScanExcludesWriters": "FALSE"}, [f], workers=2, timeout=600))
+    th.append(lambda: run.tlc_edges("Snapshotter2Gen", "Snapshotter2_gen.cfg", None, timeout=600, workers=2))
+    return th
+
+
+def two_interest(w):
+    """walks in which B is called while A is inside its create transaction come first"""
+    sc, inside = 0, False
+    for s in w:
+        if s.get("who") == "A" and s.get("name") in ("create.mktemp", "create.rename"):
+            inside = True
+        if s.get("who") == "A" and s.get("name") in ("create.commit", "create.failed"):
+            inside = False
+        if s.get("act") == "Blocked":
+            sc += 5
+        if s.get("act") == "Call" and s.get("who") == "B" and inside:
+            sc += 5
+        if s.get("act") in ("FsMount", "FsUnmount"):
+            sc += 1
+    return sc
+
+
+def two_job(run, graph, thorough):
+    inits, edges = graph
+    walks, st = edge_cover(inits, edges, maxlen=60, rng=run.rng)
+    # complete every walk to a terminal state (both callers returned): the driver never leaves a goroutine half way
+    out = {}
+    for e in edges:
+        out.setdefault(canon(e["from"]), []).append(e)
+    full = []
+    for w in walks:
+        w = list(w)
+        node = canon(w[-1]["post"]) if w else canon(inits[0])
+        while out.get(node):
+            e = out[node][run.rng.randrange(len(out[node]))]
+            w.append(dict(e["last"], post=e["to"]))
+            node = canon(e["to"])
+        full.append(w)
+    keep = sorted(full, key=two_interest, reverse=True)
+    cap = None if thorough else 45
+    truncated = bool(cap and len(keep) > cap)
+    if truncated:
+        keep = keep[:cap]
+    st = dict(st, label="two-caller", kept=len(keep), simulate=False)
+    log("[walks] two-caller: %s" % st)
+    run.cov["stages"].append(dict(stage="edge-cover", **st))
+    return {"label": "two-caller", "two": True, "async": True, "names": ["c1", "c2", "k1"],
+            "out": os.path.join(run.scratch, "replay_two.ndjson"), "walks": [strip(w) for w in keep],
+            "exhaustive": st["covered"] == st["edges"] and not truncated}
+
+
+def drive_two(run, job):
+    inp = os.path.join(run.scratch, "walks_two.json")
+    write_json(inp, [job])
+    # goroutines and gates: run under the race detector
+    return run.go_driver("", "./snapshot/", OVERLAY, "^TestVerifSnapshotter2Replay$", env={"VERIF_IN2": inp}, race=True, timeout=1800)
+
+
 RULES = {
     "C08": "behaviours = walks covering every edge of the TLC state graph of Snapshotter.tla (generation config, both removal modes) plus "
            "simulated deeper behaviours, replayed on snapshot.NewSnapshotter with a recording backend that really mounts tmpfs; "
@@ -247,7 +322,7 @@ def check(run, pid):
     formulas = C08_FORMULAS if pid == "C08" else C09_FORMULAS
     run.cov["rule"] = RULES[pid]
     run.assumptions += [
-        "one caller at a time (no concurrent API calls); two-caller interleavings are not modelled",
+        "one caller at a time in Snapshotter.tla; two callers only in the focused configuration Snapshotter2.tla (C08: createSnapshot against Cleanup/Close, bolt writer lock)",
         "bolt commits and rename(2) are atomic; a crash is the disk image between two observable steps (hooks, backend calls)",
         "the backend is a recording snapshot.FileSystem mounting a real tmpfs (EBUSY semantics of RemoveAll as in production); Check results are imposed per layer",
         "NoRestore is used exactly when the backend survived the crash (cmd/containerd-stargz-grpc/main.go); crashes during restore/Close only with a dying backend",
@@ -302,15 +377,21 @@ def check(run, pid):
                        ("async", dict(A, Keys=K1), True, None, 40, 0, 500),
                        ("sim-sync", dict(S, MaxOps="4", MaxId="3", MaxRestarts="2", AnyOrder="TRUE"), False, (8, 50), 60, 0, None)]
     gts = gen_thunks(run, configs)
-    res = parallel(run, gts + thunks, 3)   # at most three TLC processes at a time
+    tts = two_thunks(run) if pid == "C08" else []
+    res = parallel(run, gts + tts + thunks, 3)   # at most three TLC processes at a time
     jobs = make_jobs(run, pid, configs, res[:len(gts)])
     results = drive(run, jobs, nproc=4)
+    if tts:
+        # two callers: A = createSnapshot, B = Cleanup/Close, interleaved at the hooks (Snapshotter2.tla)
+        tj = two_job(run, res[len(gts) + len(tts) - 1], thorough)
+        results.append(drive_two(run, tj))
+        jobs.append(tj)
     for rc, out in results:
         if rc != 0:
             run.violation("datarace:snapshot", "data race reported in the snapshot package under the driver", {"log": out[-6000:]})
             return
     exhaustive = True
-    parallel(run, [lambda j=j: validate(run, pid, j, formulas) for j in jobs], 3)
+    parallel(run, [lambda j=j: validate(run, pid, j, TWO_FORMULAS if j.get("two") else formulas) for j in jobs], 3)
     for j in jobs:
         if not j["exhaustive"] and not j["label"].startswith("sim"):
             exhaustive = False
